@@ -96,6 +96,8 @@ package zenodb
 //@   modifies *
 //@   callback Panic noreturn
 //@   at call (*zenodb.fileStore).flush assert every_tenth: callarg7 == ((rs.flushCount - 1) % 10 == 9)
+//@   at call (*zenodb.fileStore).flush assert writes_current_fields: callarg2 == rs.fields
+//@   at call io/ioutil.TempFile assert partial_file_outside_table_dir: callarg0 == ""
 //@   capture newMS Int = result 0 of call (*zenodb.rowStore).newMemStore
 //@   at call sync.RWMutex).Unlock assert handover_atomic: captured(newMS) ==> rs.memStore == newMS && rs.fileStore == fs && rs.fileStore != nil
 
